@@ -71,7 +71,46 @@ def nt(k, v, p):  # node transform for evolvables (module level => serializable)
   return 5
 
 
-IMPORT = 'from bounded.c13_hyper import A, A2, B, IntSeq, nt\n'
+# Symbolic classes whose Python `==` is NOT the symbolic (structural)
+# comparison.  Their instances are ordinary symbolic values: pg.eq compares
+# them field by field, so candidates made of them are distinguishable exactly
+# when their fields differ.
+
+
+@pg.symbolize
+class SC:
+  """pg.symbolize-d plain class: `==` is object identity."""
+
+  def __init__(self, k, m=0):
+    self.k = k
+    self.m = m
+
+
+class NE(pg.Object):
+  """pg.Object that opts out of symbolic comparison: `==` is identity."""
+  use_symbolic_comparison = False
+  k: pg.typing.Any()
+  m: pg.typing.Any(default=None)
+
+
+class WE(pg.Object):
+  """pg.Object whose own `==` is broader than pg.eq (same class => equal)."""
+  use_symbolic_comparison = False
+  k: pg.typing.Any()
+
+  def __eq__(self, other):
+    return isinstance(other, WE)
+
+  def __ne__(self, other):
+    return not self.__eq__(other)
+
+  def __hash__(self):
+    return 0
+
+
+IMPORT = 'from bounded.c13_hyper import A, A2, B, IntSeq, nt, SC, NE, WE\n'
+IMPORT_SV = 'from bounded.c13_hyper import spec_violation\n'
+_O_DEFAULTS = [(A, {'y': None}), (SC, {'m': 0}), (NE, {'m': None})]
 
 # ---------------------------------------------------------------------------
 # Value-spec descriptors: a small independent model of what a bound value spec
@@ -296,8 +335,10 @@ def with_spec(n, sd):
 def O(cls, **kw):
   # Fields in schema order (the order pyglove stores/traverses them).
   order = [str(k) for k in cls.__schema__.fields.keys()]
-  if issubclass(cls, A):
-    kw.setdefault('y', None)
+  for base, dflt in _O_DEFAULTS:
+    if issubclass(cls, base):
+      for k, d in dflt.items():
+        kw.setdefault(k, d)
   return N('o', cls=cls, items=[(k, _n(kw[k])) for k in order if k in kw])
 
 
@@ -482,7 +523,8 @@ def where_fn(sel):
 
 def header(root):
   s = src(root)
-  needs = any(t in s for t in ('A(', 'A2(', 'B(', 'IntSeq(', 'nt'))
+  needs = any(t in s for t in ('A(', 'A2(', 'B(', 'IntSeq(', 'nt', 'SC(',
+                               'NE(', 'WE('))
   out = 'import pyglove as pg\n'
   if 'datetime.' in s:
     out += 'import datetime\n'
@@ -1178,6 +1220,87 @@ def mv_src(mv, root=True, plain=False):
 
 
 # ---------------------------------------------------------------------------
+# Foreign values: model values changed at one place, so that they differ from
+# the value they were derived from.  The statement does not say whether
+# `encode` refuses them (members of the space are all checked by the main
+# loop), but "encoding never modifies the template" holds for every input,
+# also on the refusing path.
+# ---------------------------------------------------------------------------
+
+_ZZ = 'zz9'
+_SWAP_CLS = None
+
+
+def _swap_cls(cls):
+  global _SWAP_CLS
+  if _SWAP_CLS is None:
+    _SWAP_CLS = {A: A2, A2: A, SC: NE, NE: SC}
+  return _SWAP_CLS.get(cls)
+
+
+def _mv_sites(mv, path=()):
+  """(path, node) of every dict / list / object / leaf node (not placeholders)."""
+  if isinstance(mv, tuple) and mv and mv[0] in ('H', 'R'):
+    return
+  yield path, mv
+  if isinstance(mv, dict):
+    for k, v in mv.items():
+      yield from _mv_sites(v, path + (k,))
+  elif isinstance(mv, list):
+    for i, v in enumerate(mv):
+      yield from _mv_sites(v, path + (i,))
+  elif isinstance(mv, tuple) and mv and mv[0] == 'O':
+    for k, v in mv[2].items():
+      yield from _mv_sites(v, path + (k,))
+
+
+def _mv_replace(mv, path, new):
+  if not path:
+    return new
+  k, rest = path[0], path[1:]
+  if isinstance(mv, dict):
+    return {a: (_mv_replace(b, rest, new) if a == k else b) for a, b in mv.items()}
+  if isinstance(mv, list):
+    return [(_mv_replace(b, rest, new) if i == k else b) for i, b in enumerate(mv)]
+  assert mv[0] == 'O'
+  return ('O', mv[1], {a: (_mv_replace(b, rest, new) if a == k else b)
+                       for a, b in mv[2].items()})
+
+
+def mutants(mv, rnd, per_class=1):
+  """(mutation class, changed model value), a few per class."""
+  out = {}
+  def add(cls, path, new):
+    out.setdefault(cls, []).append(_mv_replace(mv, path, new))
+  for path, n in _mv_sites(mv):
+    if isinstance(n, dict):
+      add('extra-key' + ('-in-empty-dict' if not n else ''), path,
+          dict(n, **{_ZZ: 1}))
+      if n:
+        add('missing-key', path, {k: v for k, v in list(n.items())[1:]})
+      else:
+        add('empty-list-for-empty-dict', path, [])
+    elif isinstance(n, list):
+      add('extra-element' + ('-in-empty-list' if not n else ''), path, n + [_ZZ])
+      if n:
+        add('missing-element', path, n[:-1])
+      else:
+        add('empty-dict-for-empty-list', path, {})
+    elif isinstance(n, tuple) and n and n[0] == 'O':
+      other = _swap_cls(n[1])
+      if other is not None:
+        add('other-class', path, ('O', other, n[2]))
+    elif not isinstance(n, tuple):
+      add('other-leaf', path, _ZZ)
+  res = []
+  for cls in sorted(out):
+    ms = out[cls]
+    rnd.shuffle(ms)
+    res.extend((cls, m) for m in ms[:per_class])
+  return res
+
+
+# ---------------------------------------------------------------------------
 # The per-template check.
 # ---------------------------------------------------------------------------
 
@@ -1237,6 +1360,9 @@ def check_template(rec, root, sel, rnd, cap, deep_checks=6, post=None,
   # selected choice (encode consults the unfiltered template there).
   esig = 'where-unselected-inside-selected-choice' if (
       unselected_below_selected_choice(root, sel)) else sig
+  # Evolvables encode any value; the known `where` defect has its own id.
+  foreign_ok = esig is sig and not any(
+      n.kind == 'ev' and is_sel(n, sel) for n in walk(root))
 
   seen = {}
   for idx, (dl, mv) in enumerate(pairs):
@@ -1293,7 +1419,7 @@ def check_template(rec, root, sel, rnd, cap, deep_checks=6, post=None,
     sv = spec_violation(got) if has_obj else None
     rec.case(f'decode.spec-accepted/{sig}', key, sv is None,
              f'decoded value violates a bound value spec: {sv}',
-             wpre + 'x = t.decode(d)\n' + IMPORT.replace('A, A2, B, IntSeq, nt', 'spec_violation')
+             wpre + 'x = t.decode(d)\n' + IMPORT_SV
              + 'assert spec_violation(x) is None, spec_violation(x)')
     if pg.to_json_str(dna) != before:
       rec.case(f'decode.dna-unchanged/{sig}', key, False,
@@ -1387,6 +1513,22 @@ def check_template(rec, root, sel, rnd, cap, deep_checks=6, post=None,
       rec.case(f'materialize.value/{sig}', key, okm, mm,
                header(root) + f'v = {vsrc}\nd = {dsrc}\nassert pg.eq(pg.materialize('
                f'v, d{where_src(sel)}), {mv_src(mv)})')
+
+    if deep and foreign_ok:
+      # encode of values that differ from the decoded one at one place.
+      for mcls, mut in mutants(mv, rnd):
+        msrc = mv_src(mut)
+        fkey = key + (mcls, msrc)
+        fid = f'{mcls}/{sig}'
+        try:
+          t.encode(to_pg(mut))
+        except Exception:  # pylint: disable=broad-except
+          pass   # refused (or not): the statement only protects the template.
+        df = snap.diff()
+        rec.case(f'encode.foreign-value.template-unchanged/{fid}', fkey,
+                 df is None, df,
+                 wpre + f'x = {msrc}\nj = pg.to_json_str(v)\ntry:\n  t.encode(x)\n'
+                 'except Exception:\n  pass\nassert pg.to_json_str(v) == j, v')
 
   df = snap.diff()
   rec.case(f'template-unchanged-after-all/{sig}', key0, df is None, df,
@@ -1927,6 +2069,137 @@ def drv_typed_roundtrip(tier, seed):
 
 
 # ---------------------------------------------------------------------------
+# Driver 2c: candidate / constant kinds for which a shortcut in the structural
+# comparison of encode is wrong:
+#   * containers that are empty, or a key-subset / prefix of a sibling
+#     candidate (an empty template node "matches" everything only if the walk
+#     forgets to look at what the input has in addition), in both orders;
+#   * symbolic objects whose Python `==` is not the symbolic comparison
+#     (identity for pg.symbolize-d classes and use_symbolic_comparison=False,
+#     or a user-defined broader `==`): decode hands out copies, so only the
+#     structural comparison can recognise the candidate.
+# All these candidates are pairwise distinguishable (pg.eq is False).
+# ---------------------------------------------------------------------------
+
+
+def kind_families():
+  """name -> three factories of pairwise distinguishable constant candidates."""
+  sc = lambda **kw: (lambda: O(SC, **kw))
+  ne = lambda **kw: (lambda: O(NE, **kw))
+  we = lambda **kw: (lambda: O(WE, **kw))
+  return [
+      ('dict-key-subsets', [lambda: D(), lambda: D(p=1), lambda: D(p=1, q=2)]),
+      ('list-prefixes', [lambda: L([]), lambda: L([1]), lambda: L([1, 2])]),
+      ('nested-empty-dict', [lambda: D(a=D()), lambda: D(a=D(x=1)),
+                             lambda: D(a=D(x=1, y=D()))]),
+      ('nested-empty-list', [lambda: L([L([])]), lambda: L([L([0])]),
+                             lambda: D(a=L([]))]),
+      ('object-with-empty-container-field',
+       [lambda: O(A, x=1, y=D()), lambda: O(A, x=1, y=D(k=1)),
+        lambda: O(A, x=1, y=L([]))]),
+      ('empty-containers-and-none', [lambda: D(), lambda: L([]), lambda: C(None)]),
+      ('symbolized-class-object', [sc(k=3), sc(k=5), sc(k=3, m=1)]),
+      ('object-with-identity-eq', [ne(k=3), ne(k=5), ne(k=D(p=3))]),
+      ('object-with-broad-eq', [we(k=3), we(k=5), we(k='x')]),
+      ('container-of-nonsymbolic-eq-objects',
+       [lambda: D(p=O(SC, k=3)), lambda: D(p=O(SC, k=5)),
+        lambda: L([O(NE, k=3), O(WE, k=1)])]),
+      ('nested-nonsymbolic-eq-objects',
+       [lambda: O(NE, k=O(SC, k=1), m=L([O(WE, k=1)])),
+        lambda: O(NE, k=O(SC, k=2), m=L([O(WE, k=1)])),
+        lambda: O(NE, k=O(SC, k=1), m=L([O(WE, k=2)]))]),
+  ]
+
+
+def kind_shapes(cs):
+  """(shape class, factory of a root) around three candidate factories."""
+  c0, c1, c2 = cs
+  out = []
+  add = lambda c, f: out.append((c, f))
+  # Constant candidates, in both orders, at the root (decode returns the
+  # candidate) and inside a container (decode returns a copy).
+  add('oneof-const-candidates', lambda: One([c0(), c1(), c2()]))
+  add('oneof-const-candidates', lambda: D(z=One([c2(), c1(), c0()])))
+  add('oneof-const-candidates', lambda: D(z=One([c0(), c1(), c2()])))
+  add('oneof-const-candidates', lambda: L([One([c1(), c0()]), One([c0(), c2()])]))
+  add('nested-oneof', lambda: D(z=One([c0(), One([c1(), c2()])])))
+  add('nested-oneof', lambda: L([One([One([One([c2(), c1()])]), c0()])]))
+  for distinct in (True, False):
+    for srt in (False, True):
+      add('manyof', lambda d=distinct, s_=srt: D(z=Many(2, [c0(), c1(), c2()], d, s_)))
+  add('manyof', lambda: Many(3, [c2(), c0(), c1()]))
+  add('manyof', lambda: Many(1, [c0(), c1()]))
+  # The same kinds as constant parts of the template itself.
+  add('constant-siblings', lambda: D(u=One([c2(), c0()]), v=c1(), w=c0()))
+  add('constant-siblings', lambda: L([c0(), One([1, 2]), c1(), c2()]))
+  add('constant-siblings', lambda: O(NE, k=One([c0(), c1(), c2()]), m=c0()))
+  add('constant-siblings-in-candidates',
+      lambda: D(z=One([D(r=c0(), s=One([1, 2])), D(r=c1(), s=One([1, 2]))])))
+  add('constant-siblings-in-candidates',
+      lambda: D(z=One([L([c1(), One([1, 2])]), L([c0(), One([1, 2])])])))
+  add('nonconst-candidates',
+      lambda: D(z=One([D(r=c0(), s=One([c1(), c2()])), D(r=One([c0(), c2()]))])))
+  add('nonconst-candidates',
+      lambda: One([L([One([c0(), c1()])]), L([c2(), One([c0(), c1()])])]))
+  add('object-field', lambda: O(A, x=One([1, 2]), y=One([c0(), c1(), c2()])))
+  add('object-field', lambda: O(SC, k=One([c2(), c1(), c0()]), m=One([0, 1])))
+  add('manyof-nested', lambda: D(z=Many(2, [One([c0(), c1()]), c2()], False, False)))
+  return out
+
+
+def _has_nonsym(root):
+  return any(n.kind == 'o' and n.cls in (SC, NE, WE) for n in walk(root))
+
+
+def kind_templates(tier, seed):
+  """Yields (root, sig).  quick: per family the constant-candidate shapes plus
+  a rotating third of the others; thorough: everything."""
+  quick = tier == 'quick'
+  for fi, (fam, cs) in enumerate(kind_families()):
+    shapes = kind_shapes(cs)
+    for si, (shape, mk) in enumerate(shapes):
+      if quick and not (si in (0, 1) or (si + fi + seed) % 3 == 0):
+        continue
+      yield assign_names(mk()), f'{fam}.{shape}'
+    # A reference to the chosen candidate (derived values are compared too).
+    nonsym = _has_nonsym(cs[0]()) or _has_nonsym(cs[1]()) or _has_nonsym(cs[2]())
+    rsig = 'ref-to-nonsymbolic-eq-object' if nonsym else f'{fam}.ref'
+    c0, c1, c2 = cs
+    yield (assign_names(D(a=One([c0(), c1(), c2()]), b=Ref('a'),
+                          c=L([Ref('a')]))), rsig)
+
+
+def drv_candidate_kinds(tier, seed):
+  cap = 9 if tier == 'quick' else 30
+  rec = Recorder(
+      'C13', 'decode/encode/iter with candidates and constants that are empty '
+      'or sub-containers of each other, or symbolic objects without symbolic '
+      '`==` (vs reference model)',
+      scope='11 candidate families (dict key-subsets incl. {}, list prefixes '
+      'incl. [], nested empty dict/list, object field holding {} / [], '
+      '{} / [] / None; pg.symbolize-d class, pg.Object with '
+      'use_symbolic_comparison=False, pg.Object with a broader __eq__, and '
+      'containers / nestings of those) x 22 placements (oneof constant '
+      'candidates in both orders at the root and inside containers, nested '
+      'oneof, manyof 4 modes, constant siblings of the template and of '
+      'candidates, non-constant candidates, object fields, value reference); '
+      f'all DNAs if <= {cap} else {cap} random; encode of foreign values; '
+      'quick: a rotating third of the placements')
+  rnd = rng(seed, 'c13-kinds')
+  for n, (root, sig) in enumerate(kind_templates(tier, seed)):
+    try:
+      check_template(rec, root, None, rnd, cap,
+                     deep_checks=2 if tier == 'quick' else 4, sig=sig)
+      total = msize(root, None)
+      if (tier != 'quick' or n % 4 == 0) and total <= 40:
+        check_iter(rec, root, None, total, seed, n % 8 == 0, sig=sig)
+    except Exception as e:  # pylint: disable=broad-except
+      rec.case('harness/' + sig, src(root), False,
+               f'harness error {type(e).__name__}: {e}', src(root))
+  return rec.result()
+
+
+# ---------------------------------------------------------------------------
 # Driver 3: values decoded from a template bound to a value spec are accepted
 # by that spec (so unacceptable candidates must be refused at binding time).
 # ---------------------------------------------------------------------------
@@ -2236,8 +2509,8 @@ def drv_decode_invalid(tier, seed):
   return rec.result()
 
 
-DRIVERS = [drv_decode_encode, drv_iter, drv_typed_roundtrip, drv_binding,
-           drv_decode_invalid]
+DRIVERS = [drv_decode_encode, drv_iter, drv_typed_roundtrip,
+           drv_candidate_kinds, drv_binding, drv_decode_invalid]
 
 
 def replay(rec):
